@@ -88,9 +88,38 @@ def build(unit, workdir):
                 if inc in included:
                     continue
                 included.add(inc)
-                process(_read(os.path.join(VERIF, "prelude", inc)), "prelude:" + inc)
+                itext = _read(os.path.join(VERIF, "prelude", inc))
+                for kv in s.split()[2:]:
+                    k, v = kv.split("=", 1)
+                    itext = itext.replace("@%s@" % k, v)
+                itext = re.sub(r"@[A-Z_]+@", "", itext)
+                process(itext, "prelude:" + inc)
             elif s.startswith("//@notwin"):
                 pending_notwin[0] = True
+            elif s.startswith("//@derive_clone "):
+                # R20: #[derive(Clone)] expanded field-wise; a hand-written impl Clone is extracted instead
+                tyname = s.split()[1]
+                key = unit["derive_clone"][tyname]
+                S = src(key)
+                tcfg = [t for t in unit.get("types", []) if t[1] == tyname]
+                dropf = (tcfg[0][3].get("drop", []) if tcfg and len(tcfg[0]) > 3 else [])
+                if "Clone" in S.derives("struct", tyname):
+                    fields = [f for f in S.find_type("struct", tyname)["names"] if f not in dropf]
+                    body = "{ Self { " + ", ".join("%s: self.%s.clone()" % (f, f) for f in fields) + " } }"
+                    g.rules_applied["R20-derive-clone"] = g.rules_applied.get("R20-derive-clone", 0) + 1
+                    line = S.find_type("struct", tyname)["line"]
+                else:
+                    f = S.find_fn(tyname + "::clone@Clone")
+                    log = {}
+                    body = rewrite.apply_rules(f["body"], list(unit.get("rules", [])), log, tyname + "::clone")
+                    line = f["line"]
+                tmpl_sig_line = max(k for k in range(len(g.lines)) if re.search(r"\bfn\s+\w+", g.lines[k]) and not g.lines[k].strip().startswith("//"))
+                first = len(g.lines) + 1
+                g.add(body, "body", (tyname + "::clone", S.path, line))
+                fnpath = tyname + "::clone"
+                g.bodies[fnpath] = (first, len(g.lines))
+                g.contracted.append(dict(fnpath=fnpath, name="clone", region=(tmpl_sig_line + 1, len(g.lines)), src=S.path,
+                                         src_line=line, notwin=False, tags=[]))
             elif s.startswith("//@body "):
                 parts = s.split()
                 fnpath = parts[1]
@@ -277,9 +306,10 @@ def _span(sp, fname, acc, msg):
         _span(dict(exp["span"], is_primary=sp.get("is_primary", False)), fname, acc, msg)
 
 
-def run_verus(path, rlimit=None, seed=None, timeout=900):
+def run_verus(path, rlimit=None, seed=None, timeout=900, flags=()):
     cmd = ["verus", os.path.basename(path), "--output-json", "--time-expanded", "--triggers-mode", "silent",
            "--error-format=json", "--multiple-errors", "40"]
+    cmd += list(flags)
     if rlimit:
         cmd += ["--rlimit", str(rlimit)]
     if seed is not None:
@@ -379,6 +409,8 @@ def run_unit(name, workdir, rlimit=None, seed=None, twins=True):
         f.write(text)
     res["generated"] = path
     res["trusted"] = scan_assumptions(text)
+    if "--no-erasure-check" in unit.get("verus_flags", ()):
+        res["trusted"].append("verus --no-erasure-check: the final ghost-erasure type check is skipped (the generated file is verified, never compiled or run)")
     regs = fn_regions(text)
 
     def region_of(line):
@@ -447,7 +479,7 @@ def run_unit(name, workdir, rlimit=None, seed=None, twins=True):
             res["undecided"].append("frame check %s failed: %s (hits=%d)" % (fr["name"], fr["bad"], fr["hits"]))
 
     # ---- main Verus run
-    r = run_verus(path, rlimit=rlimit, seed=seed)
+    r = run_verus(path, rlimit=rlimit or unit.get("rlimit"), seed=seed, flags=unit.get("verus_flags", ()))
     res["checker_cmd"] = r["cmd"]
     verr, terr = classify(r["diags"], fname)
     if r["out"] is None or "verification-results" not in (r["out"] or {}):
@@ -531,11 +563,11 @@ def run_unit(name, workdir, rlimit=None, seed=None, twins=True):
         tpath = os.path.join(workdir, name + "__twins.rs")
         with open(tpath, "w") as f:
             f.write(ttext)
-        tr = run_verus(tpath, rlimit=rlimit, seed=seed)
+        tr = run_verus(tpath, rlimit=rlimit or unit.get("rlimit"), seed=seed, flags=unit.get("verus_flags", ()))
         tverr, tterr = classify(tr["diags"], os.path.basename(tpath))
         res["twins_total"] = len(tw)
-        if tr["out"] is None:
-            res["undecided"].append("twin run produced no result")
+        if tr["out"] is None or tterr or (tr["out"].get("verification-results") or {}).get("encountered-vir-error"):
+            res["undecided"].append("twin run failed (tool/compile error): %s" % "; ".join(t["message"] for t in tterr)[:300])
         else:
             for t in tw:
                 rejected = False
